@@ -47,6 +47,14 @@ META = {
         "case (C15_jacobi_eigen_contract) and C15_fit_exact_image_jacobi states the exact-image theorem with "
         "'jacobi stops with zero off-diagonal part' in place of the contract; for inexact exits the residual "
         "identity |A0 v_k - d_k v_k|^2 = off-diagonal mass of column k <= half the total off-diagonal mass. "
+        "PURITY TIE (checked obligation, not a Coq theorem): the Gallina functions are pure by construction, so the "
+        "correspondence 'model = code' additionally requires of every tied quatfit entry (center, translate, rotmol, "
+        "q2mat, qtrfit, qfit, qtransform, find_coordinates, qchichange) that impl(args) leaves its argument objects "
+        "bit-identical, returns nothing that aliases them, and returns bit-identical results when called again with "
+        "the SAME objects (lists, tuples, numpy arrays, lists of arrays/tuples, one object passed for two parameters, "
+        "one template reused for a series of placements); checked on the real code by search_purity with a replayable "
+        "history per failure; quatfit.jacobi is exempt (in-place by design on the matrix qtrfit builds afresh). The "
+        "bit-exact correspondence itself uses fresh argument objects for every call. "
         "STILL NOT PROVED (validated oracle / measured): convergence (that the off-diagonal mass reaches the "
         "threshold within the 30 sweeps), the effect of the non-zero threshold 1e-12 on the returned eigenvector "
         "(known finding C15-F1 lives exactly there: gap-dependent), and all rounding (1e-6 A, 0.05 degrees). These "
@@ -155,6 +163,12 @@ def same_bits(a, b):
     if a != a or b != b:
         return a != a and b != b
     return a.hex() == b.hex()
+
+
+def fresh(x):
+    """A new argument object per implementation call: the correspondence compares VALUES of single calls;
+    purity (arguments unchanged, repeatable, no aliasing) is the separate obligation checked by search_purity."""
+    return copy.deepcopy(x)
 
 
 def flat(x):
@@ -410,25 +424,25 @@ def build_corr_cases(ctx, qf, util, mult, exit_reports=None):
     for _ in range(30 * mult):
         n = rng.choice([1, 2, 3, 3, 4, 7])
         pts = gen_coords(rng, n)
-        c, rel = qf.center(n, pts)
+        c, rel = qf.center(n, fresh(pts))
         add("center", f"F_center {cpts(pts)}", flat(c) + flat(rel), "exact", {"pts": pts})
     for _ in range(30 * mult):
         n = rng.choice([1, 2, 3, 4])
         pts = gen_coords(rng, n)
         c = gen_coords(rng, 1)[0]
         mode = rng.choice([1, 2, 1, 2, 3])
-        add("translate", f"F_translate {mode} {cpt(c)} {cpts(pts)}", flat(qf.translate(n, pts, c, mode)), "exact", {"pts": pts, "c": c, "mode": mode})
+        add("translate", f"F_translate {mode} {cpt(c)} {cpts(pts)}", flat(qf.translate(n, fresh(pts), fresh(c), mode)), "exact", {"pts": pts, "c": c, "mode": mode})
     for _ in range(30 * mult):
         n = rng.choice([1, 2, 3])
         pts = gen_coords(rng, n)
         m = gen_coords(rng, 3, "unit")
-        add("rotmol", f"F_rotmol {cmat3(m)} {cpts(pts)}", flat(qf.rotmol(n, pts, m)), "exact", {"pts": pts, "m": m})
+        add("rotmol", f"F_rotmol {cmat3(m)} {cpts(pts)}", flat(qf.rotmol(n, fresh(pts), fresh(m))), "exact", {"pts": pts, "m": m})
     for _ in range(30 * mult):
         q = [rng.uniform(-1, 1) for _ in range(4)]
         if rng.random() < 0.5:
             nq = math.sqrt(sum(x * x for x in q))
             q = [x / nq for x in q]
-        add("q2mat", f"F_q2mat {cquat(q)}", flat(qf.q2mat(q)), "exact", {"q": q})
+        add("q2mat", f"F_q2mat {cquat(q)}", flat(qf.q2mat(fresh(q))), "exact", {"q": q})
     # qtrfit matrix, jacobi, qtrfit, find_coordinates on point sets
     for k in range(120 * mult):
         fc = gen_fit_case(rng)
@@ -443,24 +457,24 @@ def build_corr_cases(ctx, qf, util, mult, exit_reports=None):
         data = {"refs": refs, "defs": defs, "atom": atom, "n": n}
         with Capture(qf) as cap:
             try:
-                out = qf.find_coordinates(n, refs, defs, atom)
+                out = qf.find_coordinates(n, fresh(refs), fresh(defs), fresh(atom))
             except Exception as e:  # noqa
                 out = "EXC"
         add("find_coordinates", f"F_find_coordinates {n} {cpts(refs)} {cpts(defs)} {cpt(atom)}", out if out == "EXC" else flat(out), "exact", data)
         if cap.calls and k % 2 == 0:
             amat, nrot, (dvec, vmat), _final = cap.calls[0]
-            _, drel = qf.center(n, defs)
-            _, rrel = qf.center(n, refs)
+            _, drel = qf.center(n, fresh(defs))
+            _, rrel = qf.center(n, fresh(refs))
             upper = [amat[i][j] for i in range(4) for j in range(i, 4)]
             add("cmat (qtrfit matrix)", f"F_cmat {cpts(drel)} {cpts(rrel)}", upper, "exact", {"defs": drel, "refs": rrel})
             add("jacobi (on qtrfit matrix)", f"F_jacobi {cmat4(amat)} {nrot}", flat(dvec) + flat(vmat), "exact", {"amat": amat, "nrot": nrot})
-            q, lrot = qf.qtrfit(n, drel, rrel, 30)
+            q, lrot = qf.qtrfit(n, fresh(drel), fresh(rrel), 30)
             add("qtrfit", f"F_qtrfit 30 {cpts(drel)} {cpts(rrel)}", flat(q) + flat(lrot), "exact", {"defs": drel, "refs": rrel})
     # exception paths of find_coordinates
     pts = gen_coords(rng, 3)
     for n, refs, defs in [(0, pts, pts), (4, pts, pts), (3, pts[:2], pts), (3, pts, pts[:2]), (2, pts, pts)]:
         try:
-            out = flat(qf.find_coordinates(n, refs, defs, [0.5, 0.25, 1.0]))
+            out = flat(qf.find_coordinates(n, fresh(refs), fresh(defs), [0.5, 0.25, 1.0]))
         except (ZeroDivisionError, IndexError):
             out = "EXC"
         add("find_coordinates (numpoints edge)", f"F_find_coordinates {n} {cpts(refs)} {cpts(defs)} {cpt([0.5, 0.25, 1.0])}", out, "exact", {"refs": refs, "defs": defs, "atom": [0.5, 0.25, 1.0], "n": n})
@@ -482,7 +496,7 @@ def build_corr_cases(ctx, qf, util, mult, exit_reports=None):
         angle = rng.choice([rng.uniform(-360, 360), rng.uniform(-180, 180), 120, -120, 180, 180.0, 5.0, 20.0, 0.0, 90, -90, 1e-9])
         rad = math.pi * angle / 180.0
         nrm = float(np.linalg.norm(init))
-        out = qf.qchichange(init, coords, angle)
+        out = qf.qchichange(fresh(init), fresh(coords), angle)
         add("qchichange", f"F_qchichange {fh(nrm)} {fh(math.cos(rad))} {fh(math.sin(rad))} {cpt(init)} {cpts(coords)}", flat(out), "exact", {"init": init, "coords": coords, "angle": angle})
         add("norm3 vs numpy.linalg.norm", f"F_norm3 {cpt(init)}", [nrm], "rel1e-12", {"init": init})
     # dihedral: algebraic part (<= 1e-12: numpy inner/norm), then the value given scal, chiral, acos
@@ -1185,6 +1199,219 @@ def search_real_residues(ctx, util, rounds):
                     ctx.fail(bad[0], bad[1], case)
 
 
+
+# --------------------------------------------------------------------------
+# search 0: PURITY of every quatfit entry that is tied to a (pure) Gallina function.
+# The model functions are mathematical functions; the implementation corresponds to them only
+# if a call leaves its argument objects bit-identical, returns nothing that aliases them, and a
+# second call with the SAME objects returns bit-identical results.  (quatfit.jacobi is exempt: it
+# diagonalises its matrix argument in place by design; qtrfit hands it a freshly built matrix.)
+
+ARG_KINDS = ["list", "tuple", "ndarray", "list-of-ndarray", "list-of-tuple"]
+
+
+def conv(x, kind):
+    """Plain nested lists of floats -> an argument object of the given kind (always a new object)."""
+    nested = bool(x) and isinstance(x[0], (list, tuple))
+    if kind == "list":
+        return copy.deepcopy(x)
+    if kind == "tuple":
+        return tuple(tuple(r) for r in x) if nested else tuple(x)
+    if kind == "ndarray":
+        return np.array(x, float)
+    if kind == "list-of-ndarray":
+        return [np.array(r, float) for r in x] if nested else np.array(x, float)
+    if kind == "list-of-tuple":
+        return [tuple(r) for r in x] if nested else tuple(x)
+    raise ValueError(kind)
+
+
+def snap(x):
+    """Bit-exact, structure-exact snapshot of an argument / result object."""
+    if isinstance(x, np.ndarray):
+        return ("nd", x.shape, str(x.dtype), x.tobytes())
+    if isinstance(x, (list, tuple)):
+        return (type(x).__name__, tuple(snap(v) for v in x))
+    if isinstance(x, (bool, int)) and not isinstance(x, np.generic):
+        return ("i", int(x))
+    return ("f", float(x).hex())
+
+
+def bits(x):
+    """Values only (container types ignored): for comparing results."""
+    if isinstance(x, (list, tuple, np.ndarray)):
+        return tuple(bits(v) for v in x)
+    v = float(x)
+    return "nan" if v != v else v.hex()
+
+
+def containers(x, acc=None):
+    acc = [] if acc is None else acc
+    if isinstance(x, (list, np.ndarray)):
+        acc.append(x)
+    if isinstance(x, (list, tuple)):
+        for v in x:
+            containers(v, acc)
+    return acc
+
+
+def aliases(result, args):
+    """Does a mutable container of the result share storage with one of the arguments?"""
+    ac = [c for a in args for c in containers(a)]
+    for r in containers(result):
+        for c in ac:
+            if r is c or (isinstance(r, np.ndarray) and isinstance(c, np.ndarray) and r.size and c.size and np.shares_memory(r, c)):
+                return True
+    return False
+
+
+# entry -> (argument names, indices of the object-valued arguments)
+PURITY_FNS = {
+    "center": (("numpoints", "refcoords"), (1,)),
+    "translate": (("numpoints", "refcoords", "center_", "mode"), (1, 2)),
+    "rotmol": (("numpoints", "coor", "lrot"), (1, 2)),
+    "q2mat": (("quat",), (0,)),
+    "qtrfit": (("numpoints", "defcoords", "refcoords", "nrot"), (1, 2)),
+    "qfit": (("numpoints", "refcoords", "defcoords"), (1, 2)),
+    "qtransform": (("numpoints", "defcoords", "refcenter", "fitcenter", "rotation"), (1, 2, 3, 4)),
+    "find_coordinates": (("numpoints", "refcoords", "defcoords", "defatomcoords"), (1, 2, 3)),
+    "qchichange": (("initcoords", "refcoords", "angle"), (0, 1)),
+}
+
+# (function, alias scenario) -> how one object is passed for two parameters
+PURITY_ALIASES = {
+    "translate": [None, "center_ is refcoords[0]"],
+    "qtrfit": [None, "refcoords is defcoords"],
+    "qfit": [None, "refcoords is defcoords"],
+    "qtransform": [None, "fitcenter is refcenter"],
+    "find_coordinates": [None, "refcoords is defcoords", "defatomcoords is defcoords[0]"],
+    "qchichange": [None, "initcoords is refcoords[0]"],
+}
+
+
+def purity_build(fn, plain, kind, alias):
+    """Argument tuple for one history from plain data; object arguments are new objects of `kind`."""
+    names, objidx = PURITY_FNS[fn]
+    args = [conv(v, kind) if i in objidx else v for i, v in enumerate(plain)]
+    if alias == "center_ is refcoords[0]":
+        args[2] = args[1][0]
+    elif alias == "refcoords is defcoords":
+        args[1] = args[2]
+    elif alias == "fitcenter is refcenter":
+        args[3] = args[2]
+    elif alias == "defatomcoords is defcoords[0]":
+        args[3] = args[2][0]
+    elif alias == "initcoords is refcoords[0]":
+        args[0] = args[1][0]
+    return args
+
+
+def purity_run(qf, fn, plain, kind, alias, plains_series=None):
+    """One history on the real code.  Returns None or (condition, field, message).
+    plains_series: further plain argument tuples whose object arguments marked None are taken from the
+    FIRST call's objects (the same template object reused for several placements)."""
+    names, objidx = PURITY_FNS[fn]
+    f = getattr(qf, fn)
+    args = purity_build(fn, plain, kind, alias)
+    before = [snap(a) for a in args]
+    try:
+        with np.errstate(all="ignore"):
+            r1 = f(*args)
+    except Exception as e:  # noqa
+        return "raises:" + type(e).__name__, "call", f"{fn} raised {type(e).__name__}: {e} for {kind} arguments"
+    after = [snap(a) for a in args]
+    changed = [names[i] for i in range(len(args)) if before[i] != after[i]]
+    if changed:
+        try:
+            with np.errstate(all="ignore"):
+                again = "differs from" if bits(f(*args)) != bits(r1) else "equals"
+        except Exception as e:  # noqa
+            again = "raises " + type(e).__name__ + " unlike"
+        return "mutates-its-argument", changed[0], (
+            f"{fn}: argument(s) {changed} changed during the call ({kind} objects{', ' + alias if alias else ''}); "
+            f"a second call with the same objects {again} the first"
+        )
+    if aliases(r1, [args[i] for i in objidx]):
+        return "result-aliases-argument", "result", f"{fn}: the result shares a mutable container with an argument ({kind} objects)"
+    b1 = bits(r1)
+    try:
+        with np.errstate(all="ignore"):
+            r2 = f(*args)
+    except Exception as e:  # noqa
+        return "repeated-call-differs", "result", f"{fn}: second call with the same objects raised {type(e).__name__}"
+    if bits(r2) != b1:
+        return "repeated-call-differs", "result", f"{fn}: second call with the same argument objects returns different values ({kind} objects)"
+    # same values, new plain-list objects: the result may not depend on the object kind / history
+    rf = f(*purity_build(fn, plain, "list", alias))
+    if bits(rf) != b1:
+        return "repeated-call-differs", "result", f"{fn}: result for {kind} objects differs from the result for fresh lists with equal values"
+    for plain2 in plains_series or ():
+        a2 = [args[i] if v is None else (conv(v, kind) if i in objidx else v) for i, v in enumerate(plain2)]
+        full = [plain[i] if v is None else v for i, v in enumerate(plain2)]
+        with np.errstate(all="ignore"):
+            rr = f(*a2)
+            rfresh = f(*purity_build(fn, full, "list", None))
+        if bits(rr) != bits(rfresh):
+            return "repeated-call-differs", "result", f"{fn}: placement with a REUSED template object differs from the same call with fresh objects"
+        if [snap(a) for a in args] != before:
+            return "mutates-its-argument", "template", f"{fn}: reused template objects changed over a series of calls"
+    return None
+
+
+def purity_plain(rng, fn):
+    """Plain (nested list) argument data with centroids away from the origin."""
+    n = rng.choice([2, 3, 3, 4])
+    shift = [rng.uniform(-20, 20) for _ in range(3)]
+    pts = [[round(v + sh, 3) for v, sh in zip(p, shift)] for p in gen_coords(rng, n, "unit")]
+    pts2 = gen_coords(rng, n, "pdb")
+    m = gen_coords(rng, 3, "unit")
+    if fn == "center":
+        return (n, pts)
+    if fn == "translate":
+        return (n, pts, gen_coords(rng, 1, "pdb")[0], rng.choice([1, 2, 3]))
+    if fn == "rotmol":
+        return (n, pts, m)
+    if fn == "q2mat":
+        return ([rng.uniform(-1, 1) for _ in range(4)],)
+    if fn == "qtrfit":
+        return (n, pts, pts2, 30)
+    if fn == "qfit":
+        return (n, pts2, pts)
+    if fn == "qtransform":
+        k = rng.choice([1, n])
+        return (k, pts[0] if k == 1 else pts, gen_coords(rng, 1, "pdb")[0], gen_coords(rng, 1, "unit")[0], m)
+    if fn == "find_coordinates":
+        return (n, pts2, pts, [round(v + sh, 3) for v, sh in zip(gen_coords(rng, 1, "unit")[0], shift)])
+    if fn == "qchichange":
+        return (pts[0], pts2, rng.choice([120.0, -60.0, 180.0, rng.uniform(-180, 180)]))
+    raise ValueError(fn)
+
+
+def search_purity(ctx, qf, rounds):
+    rng = ctx.rng
+    seen = set()
+    for _ in range(rounds):
+        for fn in PURITY_FNS:
+            plain = purity_plain(rng, fn)
+            for alias in PURITY_ALIASES.get(fn, [None]):
+                for kind in ARG_KINDS:
+                    series = None
+                    if fn == "find_coordinates" and alias is None:
+                        # the caller keeps ONE template (defcoords, defatomcoords) and places it onto several structures
+                        series = [(plain[0], gen_coords(rng, plain[0], "pdb"), None, None) for _ in range(3)]
+                    bad = purity_run(qf, fn, plain, kind, alias, series)
+                    ctx.evaluated(("purity", fn, kind, alias, _), True)
+                    ctx.count(f"purity:{fn}")
+                    if bad and (fn, bad[0], bad[1]) not in seen:
+                        seen.add((fn, bad[0], bad[1]))
+                        cond, field, msg = bad
+                        ctx.fail(
+                            {"site": f"quatfit.{fn}", "field": field, "condition": cond},
+                            "purity: " + msg,
+                            {"type": "purity", "fn": fn, "kind": kind, "alias": alias, "args": list(plain), "series": [list(x) for x in series] if series else None},
+                        )
+
+
 # --------------------------------------------------------------------------
 
 
@@ -1196,6 +1423,8 @@ def run(ctx):
     from pdb2pqr import utilities as util
 
     ctx.cov["rule"] = (
+        "purity: every tied quatfit entry x argument kinds (list, tuple, ndarray, list of ndarray, list of tuple) x aliasing "
+        "(one object for two parameters, template reused over 4 placements), centroids away from the origin so an in-place shift is visible. "
         "fits: templates (bonded 3-point with 95-130 degree angle, random triples, near-collinear with sine 1e-3..1e-1, "
         "planar/non-planar quadruples, 5-6 points; half rounded to 3 decimals) x rotations (random axis/angle plus "
         "0, pi, pi-1e-6, pi-1e-9, 1e-6, +-120, 90 degrees) x translations (0..1e5 per axis); structure = numpy image; "
@@ -1225,7 +1454,7 @@ def run(ctx):
         exit_reports = []
         cases = build_corr_cases(ctx, qf, util, mult, exit_reports)
         for c in seeds_fit:
-            out = flat(qf.find_coordinates(c["n"], c["refs"], c["defs"], c["atom"]))
+            out = flat(qf.find_coordinates(c["n"], fresh(c["refs"]), fresh(c["defs"]), fresh(c["atom"])))
             cases.insert(0, {"what": "find_coordinates (corpus)", "term": f"F_find_coordinates {c['n']} {cpts(c['refs'])} {cpts(c['defs'])} {cpt(c['atom'])}", "expected": out, "mode": "exact", "data": {k: c[k] for k in ("refs", "defs", "atom", "n")}})
     try:
         res = core.run_cases("C15", HEADER, [c["term"] for c in cases], chunk=80)
@@ -1250,6 +1479,7 @@ def run(ctx):
     boost = 6 if (not ok or corr_broken) else 1
     nfit = (20000 if ctx.thorough else 2500) * boost
     ntors = (20000 if ctx.thorough else 2500) * boost
+    search_purity(ctx, qf, (40 if ctx.thorough else 6) * boost)
     exit_stats = search_fit(ctx, qf, nfit, seeds_fit)
     # arbitrary 4x4 matrices of the correspondence stage (incl. nrot < 30: fuel exhaustion - the
     # invariant is proved for every fuel value, convergence is only demanded for nrot = 30)
@@ -1271,8 +1501,9 @@ def run(ctx):
         ctx.notes.append(f"real-residue torsion search could not run: {type(e).__name__}: {e}")
     # ---- samples and bookkeeping
     fcs = gen_fit_case(ctx.rng, "bonded")
-    ctx.sample({"fit_case": {k: fcs[k] for k in ("defs", "refs", "atom", "theta", "offset")}, "impl": list(map(float, qf.find_coordinates(3, fcs["refs"], fcs["defs"], fcs["atom"]))), "oracle": (np.array(fcs["R"]) @ np.array(fcs["atom"]) + np.array(fcs["T"])).tolist()})
+    ctx.sample({"fit_case": {k: fcs[k] for k in ("defs", "refs", "atom", "theta", "offset")}, "impl": list(map(float, qf.find_coordinates(3, fresh(fcs["refs"]), fresh(fcs["defs"]), fresh(fcs["atom"])))), "oracle": (np.array(fcs["R"]) @ np.array(fcs["atom"]) + np.array(fcs["T"])).tolist()})
     ctx.sample({"correspondence_term": cases[130]["term"][:400], "expected_hex": [float(x).hex() for x in cases[130]["expected"]][:6] if cases[130]["expected"] != "EXC" else "EXC"})
+    ctx.sample({"purity_history": "find_coordinates(3, refs, defs, atom) with list objects; snapshot(args) before == after bit for bit; result shares no list with args; second call with the same objects bit-identical; then 3 more placements reusing defs/atom vs fresh-object calls"})
     ctx.sample({"obligation": "C15_jacobi_invariant: wf4 am |- let st := jsweeps nrot (jinit am) in wfst st /\\ orth (st_V st) /\\ meq (V^T (A0_of am) V) (st_sym st)   (every nrot)"})
     ctx.sample({"obligation": "C15_fit_exact_image: unit p, non-collinear template, eigen contract |- find_coordinates (length defs) (map (rigid (q2mat p) T) defs) defs atom = Some (rigid (q2mat p) T atom)"})
     ctx.trusted += [
@@ -1284,6 +1515,8 @@ def run(ctx):
         "onorm/dnorm (coverage.jacobi_exit_*), drift of the proved invariant (|V^T V - I|, |V^T A0 V - current matrix|) in binary64",
         "rounding gap between the real-number instance (theorems) and the binary64 instance (execution) is not proved; "
         "the tolerances 1e-6 A / 0.05 degrees are measured by the search on the real code",
+        "purity of the implementation (arguments unchanged, no aliasing, repeatable) is a CHECKED obligation of the tie (search_purity on the real code, "
+        "generated histories), not a theorem: the model is pure by construction; quatfit.jacobi mutates its matrix argument by design and is exempt",
         "modelled, not verified: quatfit.py, utilities.dihedral (hand model Model/Quatfit.v, tied bit-exactly on generated cases)",
     ]
     ctx.assumptions += [
@@ -1304,7 +1537,7 @@ def replay(ctx, data):
     if t == "fit":
         with ContractMonitor(qf) as mon:
             try:
-                got = qf.find_coordinates(case["n"], case["refs"], case["defs"], case["atom"])
+                got = qf.find_coordinates(case["n"], fresh(case["refs"]), fresh(case["defs"]), fresh(case["atom"]))
             except Exception as e:  # noqa
                 got = None
             last = mon.last
@@ -1316,14 +1549,14 @@ def replay(ctx, data):
         if case.get("check") == "equivariance" and got is not None:
             G, S = np.array(case["G"]), np.array(case["S"])
             refs2 = [list(map(float, G @ np.array(p) + S)) for p in case["refs"]]
-            got2 = np.array(qf.find_coordinates(case["n"], refs2, case["defs"], case["atom"]), float)
+            got2 = np.array(qf.find_coordinates(case["n"], refs2, fresh(case["defs"]), fresh(case["atom"])), float)
             e2 = float(np.linalg.norm(got2 - (G @ np.array(got, float) + S)))
             bad = bad or not (e2 <= TOL_POS)
             print("replay: equivariance error", e2)
         print("replay:", "FAILS" if bad else "passes", f"placement error {err:.3g} A; signature", classify_fit(case, got, last) if bad else None)
         return 1 if bad else 0
     if t == "proper":
-        _, _, lrot = qf.qfit(case["n"], case["refs"], case["defs"])
+        _, _, lrot = qf.qfit(case["n"], fresh(case["refs"]), fresh(case["defs"]))
         M = np.array(lrot, float)
         bad = np.abs(M.T @ M - np.eye(3)).max() > 1e-9 or abs(np.linalg.det(M) - 1) > 1e-9
         print("replay:", "FAILS" if bad else "passes", "det", float(np.linalg.det(M)))
@@ -1338,6 +1571,11 @@ def replay(ctx, data):
             d = ({"condition": "exception"}, str(e))
         print("replay:", ("FAILS: " + d[1]) if d else "passes")
         return 1 if d else 0
+    if t == "purity":
+        series = [tuple(x) for x in case["series"]] if case.get("series") else None
+        bad = purity_run(qf, case["fn"], tuple(case["args"]), case["kind"], case.get("alias"), series)
+        print("replay:", ("FAILS: " + str(bad)) if bad else "passes", f"quatfit.{case['fn']} with {case['kind']} arguments")
+        return 1 if bad else 0
     if t == "jacobi":
         mm = copy.deepcopy(case["amat"])
         dvec, vmat = qf.jacobi(mm, case["nrot"])
